@@ -1339,7 +1339,13 @@ func (m *fullMon) fixpoint() {
 					stuckOK = true
 					continue
 				}
-				m.v("C12/alive-after-kill", "%s: kill timestamp %s has passed but Pod %s is still alive at fixpoint (phase %s, deletionTimestamp %v)", fmtJob(j), fmtT(kt.Time), p.Name, p.Status.Phase, p.DeletionTimestamp)
+				rec := "not recorded in status.tasks; " + orphanCause(j, p)
+				for _, r := range j.Status.Tasks {
+					if r.Name == p.Name {
+						rec = "recorded in status.tasks"
+					}
+				}
+				m.v("C12/alive-after-kill", "%s: kill timestamp %s has passed but Pod %s is still alive at fixpoint (phase %s, deletionTimestamp %v; %s)", fmtJob(j), fmtT(kt.Time), p.Name, p.Status.Phase, p.DeletionTimestamp, rec)
 				break
 			}
 			if !s.stopped && !stuckOK && !isTerminal(j) {
